@@ -16,8 +16,8 @@ PROPS["C05"] = dict(
 )
 
 PROPS["C03"] = dict(
-    modules=["Proofs.C03", "Proofs.C03Trans", "Proofs.RawJson"],
-    theorems=["Goflow.RawJson.raw_json_member_names", "Goflow.RawJson.raw_json_marshalers", 'Goflow.C03Trans.getTemplateSize_eq', 'Goflow.C03.field_roundtrip', 'Goflow.C03.optionField_roundtrip', 'Goflow.C03.templateSet_roundtrip', 'Goflow.C03.optionsTemplateSet_roundtrip_v9', 'Goflow.C03.optionsTemplateSet_roundtrip_ipfix', 'Goflow.C03.record_roundtrip', 'Goflow.C03.encRecord_length_ge', 'Goflow.C03.dataSet_roundtrip', 'Goflow.C03.optionsDataSet_roundtrip', 'Goflow.C03.flowSet_roundtrip', 'Goflow.C03.messageCommon_roundtrip', 'Goflow.C03.roundtrip'],
+    modules=["Proofs.C03", "Proofs.C03Trans", "Proofs.RawJson", "Proofs.C03Trans2", "Proofs.C03Trans3"],
+    theorems=["Goflow.C03Trans2.decodeField_trans_eq", "Goflow.C03Trans2.decodeTemplateSet_trans_eq", "Goflow.C03Trans2.decodeNFv9OptionsTemplateSet_trans_eq", "Goflow.C03Trans2.decodeIPFIXOptionsTemplateSet_trans_eq", "Goflow.C03Trans2.decodeDataSetUsingFields_trans_eq", "Goflow.C03Trans2.decodeDataSet_trans_eq", "Goflow.C03Trans2.decodeOptionsDataSet_trans_eq", "Goflow.C03Trans3.decodeFlowSet_trans_eq", "Goflow.C03Trans3.decodeMessageCommon_trans_eq", "Goflow.C03Trans3.decodeMessageNetFlow_trans_eq", "Goflow.C03Trans3.decodeMessageIPFIX_trans_eq", "Goflow.C03Trans3.decodeMessageVersion_trans_eq", "Goflow.RawJson.raw_json_member_names", "Goflow.RawJson.raw_json_marshalers", 'Goflow.C03Trans.getTemplateSize_eq', 'Goflow.C03.field_roundtrip', 'Goflow.C03.optionField_roundtrip', 'Goflow.C03.templateSet_roundtrip', 'Goflow.C03.optionsTemplateSet_roundtrip_v9', 'Goflow.C03.optionsTemplateSet_roundtrip_ipfix', 'Goflow.C03.record_roundtrip', 'Goflow.C03.encRecord_length_ge', 'Goflow.C03.dataSet_roundtrip', 'Goflow.C03.optionsDataSet_roundtrip', 'Goflow.C03.flowSet_roundtrip', 'Goflow.C03.messageCommon_roundtrip', 'Goflow.C03.roundtrip'],
     generators=[dict(name="C03", quick=4000, thorough=100000)],
     harness=["impl"],
     level_text="Theorem roundtrip: decode (encode m) = m for every well-formed NetFlow v9 / IPFIX message against an RFC encoder (template store update, padding, enterprise bit, variable length), plus the differential run of the encoder's output through the Go decoder. GetTemplateSize is translated from the source and proved equal to the model's templateSize (C03Trans).",
@@ -33,8 +33,8 @@ PROPS["C04"] = dict(
 )
 
 PROPS["C07"] = dict(
-    modules=["Proofs.C07", "Proofs.C07E2E"],
-    theorems=['Goflow.C07.produce_order_v5', 'Goflow.C07.produce_length_v5', 'Goflow.C07.count_any_bytes_v5', 'Goflow.C07.produce_length_netflow', 'Goflow.C07.count_any_bytes_netflow', 'Goflow.C07.produce_length_sflow', 'Goflow.C07.no_output_on_fatal_error',
+    modules=["Proofs.C07", "Proofs.C07E2E", "Proofs.C03Trans3"],
+    theorems=["Goflow.C03Trans3.decodeMessageCommon_trans_eq", 'Goflow.C07.produce_order_v5', 'Goflow.C07.produce_length_v5', 'Goflow.C07.count_any_bytes_v5', 'Goflow.C07.produce_length_netflow', 'Goflow.C07.count_any_bytes_netflow', 'Goflow.C07.produce_length_sflow', 'Goflow.C07.no_output_on_fatal_error',
               'Goflow.C07E2E.v5_pipe_messages', 'Goflow.C07E2E.v5_pipe_messages_trunc', 'Goflow.C07E2E.v5_auto_messages',
               'Goflow.C07E2E.roundtripU', 'Goflow.C07E2E.netflow_pipe_messages', 'Goflow.C07E2E.netflow_pipe_messages_known', 'Goflow.C07E2E.netflow_pipe_messages_default',
               'Goflow.C07E2E.netflow_pipe_conversion_failure', 'Goflow.C07E2E.recordsConvert_of_widths', 'Goflow.C07E2E.netflow_auto_eq',
@@ -62,8 +62,8 @@ PROPS["C10"] = dict(
 )
 
 PROPS["C06"] = dict(
-    modules=["Proofs.C06", "Proofs.C08Trans"],
-    theorems=['Goflow.C06.templateKey_injective', 'Goflow.C06.store_refines', 'Goflow.C06.latest_wins', 'Goflow.C06.isolation', 'Goflow.C06.addTemplates_other', 'Goflow.C06.unknown_template', 'Goflow.C06.exporter_isolation', 'Goflow.C06.templateKey_source', 'Goflow.C08Trans.templateKey_eq'],
+    modules=["Proofs.C06", "Proofs.C08Trans", "Proofs.C03Trans3"],
+    theorems=["Goflow.C03Trans3.decodeFlowSet_trans_eq", "Goflow.C03Trans3.decodeMessageVersion_trans_eq", 'Goflow.C06.templateKey_injective', 'Goflow.C06.store_refines', 'Goflow.C06.latest_wins', 'Goflow.C06.isolation', 'Goflow.C06.addTemplates_other', 'Goflow.C06.unknown_template', 'Goflow.C06.exporter_isolation', 'Goflow.C06.templateKey_source', 'Goflow.C08Trans.templateKey_eq'],
     generators=[dict(name="C06", quick=120, thorough=3000)],
     harness=["impl"],
     level_text="Theorems: the template store refines a map keyed by (version, domain, id) per exporter; latest announcement wins; announcements never affect another key or exporter. Histories (re-announcements, broken-tail datagrams, foreign ids) are the tie.",
@@ -233,9 +233,9 @@ PROPS["C15"] = dict(
 )
 
 PROPS["C01"] = dict(
-    modules=["Proofs.C01", "Proofs.C01Sane", "Proofs.C01Any"],
+    modules=["Proofs.C01", "Proofs.C01Sane", "Proofs.C01Any", "Proofs.C03Trans3"],
     safety_classes={"ok", "err", "err:template-not-found", "err:recovered"},
-    theorems=["Goflow.C01.v5_safe", "Goflow.C01.sflow_safe", "Goflow.C01.netflow_safe", "Goflow.C01.iterations_bounded",
+    theorems=["Goflow.C03Trans3.decodeMessageVersion_trans_eq", "Goflow.C01.v5_safe", "Goflow.C01.sflow_safe", "Goflow.C01.netflow_safe", "Goflow.C01.iterations_bounded",
               "Goflow.C01.parsePacket_safe", "Goflow.C01.produce_safe", "Goflow.C01.pipe_safe", "Goflow.C01.pipe_history_safe",
               "Goflow.C01.mapCustom_sane", "Goflow.C01.parseLoop_sane", "Goflow.C01.parsePacket_sane", "Goflow.C01.produce_sane", "Goflow.C01.pipe_sane", "Goflow.C01.pipe_history_sane",
               "Goflow.C01.pipe_any_total", "Goflow.C01.pipe_any", "Goflow.C01.decodeFlowW_eq", "Goflow.C01.wrapped_safe",
